@@ -29,6 +29,7 @@ AdvDev(fid) == l' = l + 1 /\ verdict' = [verdict EXCEPT !.dev = @ \cup {fid}] /\
 Rej(why) == /\ verdict' = [v |-> "REJECT", line |-> l, why |-> why, dev |-> verdict.dev,
                            first |-> IF verdict.first = {} THEN why ELSE verdict.first]
             /\ UNCHANGED <<tid, l>>
+RejU(why) == Rej(verdict.why \cup why)     \* keeps what was noted before
 Accept == /\ Running /\ l > Len(Ev)
           /\ verdict' = [verdict EXCEPT !.v = "ACCEPT", !.line = l]
           /\ UNCHANGED <<tid, l>>
